@@ -107,6 +107,9 @@ def make_fake_websocket_module(peer, log):
             self.timeout = t
 
         def send(self, data):
+            # websocket-client sends whatever it is given as a TEXT frame
+            if isinstance(data, (bytes, bytearray)):
+                data = bytes(data).decode('utf-8', 'replace')
             log.append({'kind': 'ws-send', 'frame': data, 'binary': False,
                         't': peer.now()})
             try:
@@ -377,6 +380,8 @@ class AWs:
         self.closed = False
 
     async def send_str(self, s):
+        if not isinstance(s, str):       # as aiohttp does
+            raise TypeError('data argument must be str (%r)' % type(s))
         self.log.append({'kind': 'ws-send', 'frame': s, 'binary': False,
                          't': self.peer.now()})
         try:
@@ -386,6 +391,8 @@ class AWs:
             raise aiohttp.client_exceptions.ServerDisconnectedError()
 
     async def send_bytes(self, b):
+        if not isinstance(b, (bytes, bytearray, memoryview)):
+            raise TypeError('data argument must be byte-ish (%r)' % type(b))
         self.log.append({'kind': 'ws-send', 'frame': b, 'binary': True,
                          't': self.peer.now()})
         try:
